@@ -572,8 +572,97 @@ fn cli_exit_scan(rep: &Report) {
     rep.extra("cli_exit_scan_cases", json!(cases.len()));
 }
 
+/// `kv c20-envchild <seed> <max_ops>`: the program space again (all programs of <= max_ops operations) in a process for
+/// which memory locking fails: RLIMIT_MEMLOCK = 0 and, after giving up root (uid/gid nobody), no CAP_IPC_LOCK. Prints one
+/// line per violating program (`V <json>`) and a final `DONE <programs> <drops> <events> <mlock-fails>`.
+pub fn envchild_main(a: &[String]) -> ! {
+    let seed: u64 = a[0].parse().unwrap_or(1);
+    let max_ops: usize = a[1].parse().unwrap_or(3);
+    std::panic::set_hook(Box::new(|_| {})); // programs contain deliberate panics (drop during unwinding)
+    let mlock_fails = unsafe {
+        let rl = libc::rlimit { rlim_cur: 0, rlim_max: 0 };
+        libc::setrlimit(libc::RLIMIT_MEMLOCK, &rl);
+        libc::setgroups(0, std::ptr::null());
+        libc::setgid(65534);
+        libc::setuid(65534);
+        let probe = vec![0u8; 4096];
+        let rc = libc::mlock(probe.as_ptr() as *const libc::c_void, probe.len());
+        if rc == 0 {
+            libc::munlock(probe.as_ptr() as *const libc::c_void, probe.len());
+        }
+        rc != 0
+    };
+    let ops = all_ops(2);
+    let mut stack: Vec<Vec<Op>> = vec![vec![]];
+    let (mut programs, mut drops, mut events) = (0u64, 0u64, 0u64);
+    let mut shown = 0;
+    while let Some(p) = stack.pop() {
+        if !p.is_empty() {
+            programs += 1;
+            match execute(seed, &p) {
+                Ok(o) => {
+                    drops += o.drops as u64;
+                    events += o.events as u64;
+                }
+                Err(e) => {
+                    if shown < 20 {
+                        println!("V {}", json!({"ops":p.iter().map(|o| format!("{:?}", o)).collect::<Vec<_>>(),"what":e}));
+                        shown += 1;
+                    }
+                    continue; // do not extend a violating program
+                }
+            }
+        }
+        if p.len() < max_ops {
+            for op in &ops {
+                let mut q = p.clone();
+                q.push(*op);
+                if sim(&q).is_some() {
+                    stack.push(q);
+                }
+            }
+        }
+    }
+    println!("DONE {} {} {} {}", programs, drops, events, mlock_fails);
+    std::process::exit(0);
+}
+
+/// The program space under an environment in which locking memory fails (see envchild_main): a container that wipes only
+/// through a guard it could not set up would show here.
+fn under_failing_mlock(rep: &Report) {
+    let exe = std::env::current_exe().unwrap_or_else(|_| crate::report::machinery("current_exe"));
+    let max_ops = rep.tier.pick(3usize, 4);
+    let o = match std::process::Command::new(&exe).args(["c20-envchild", &rep.seed.to_string(), &max_ops.to_string()]).stdin(std::process::Stdio::null()).stderr(std::process::Stdio::piped()).output() {
+        Ok(o) => o,
+        Err(e) => crate::report::machinery(&format!("cannot start the C20 environment child: {}", e)),
+    };
+    let text = String::from_utf8_lossy(&o.stdout).to_string();
+    let done = text.lines().find_map(|l| l.strip_prefix("DONE "));
+    for l in text.lines().filter_map(|l| l.strip_prefix("V ")) {
+        let v: Value = serde_json::from_str(l).unwrap_or(json!({}));
+        rep.violation("program-with-failing-mlock/released-intact", json!({"kind":"mlock","ops":v["ops"]}), format!("in a process where mlock fails, program {}: {}", v["ops"], v["what"].as_str().unwrap_or("")));
+    }
+    match done {
+        Some(d) => {
+            let f: Vec<&str> = d.split(' ').collect();
+            let n: u64 = f[0].parse().unwrap_or(0);
+            rep.eval(n);
+            rep.add_distinct(n);
+            rep.extra("programs_under_failing_mlock", json!({"max_ops":max_ops,"programs":n,"instances_dropped":f[1],"release_events_observed":f[2],"mlock_really_fails_there":f[3]}));
+            if f[1] != f[2] && !text.lines().any(|l| l.starts_with("V ")) {
+                crate::report::machinery(&format!("vacuous environment-child run: {}", d));
+            }
+        }
+        None => {
+            use std::os::unix::process::ExitStatusExt;
+            rep.violation("program-with-failing-mlock/died", json!({"kind":"mlock"}), format!("the process enumerating the programs under a failing mlock ended early (signal {:?}, exit {:?}): {}", o.status.signal(), o.status.code(), String::from_utf8_lossy(&o.stderr).lines().last().unwrap_or("")));
+        }
+    }
+}
+
 pub fn run(rep: &'static Report) {
     rep.set_rule("E-GRAPH over programs: breadth-first search (stateright) over all programs of <= 4 (quick) / 5 (thorough) operations on 3 slots from {PrivateKey::try_from, PrivateKey::generate, PayloadKey::new (8-aligned box and odd address), clone, clone_from, drop, drop during panic unwinding, pass to noise_encrypt} with two key values (one containing zero bytes); every program is executed from scratch on the real containers (boxed, so the secret bytes always live in a heap block) under an allocator that copies the watched 32 bytes at the moment their block is deallocated. distinct non-trivial = programs that drop at least one instance");
+    rep.rule_add("All programs of <= 3 (thorough 4) operations again in a child process in which mlock fails (RLIMIT_MEMLOCK 0, no privileges).");
     rep.rule_add("live-heap search after key_encrypt / key_decrypt (3 lengths x payload supplied or not); LD_PRELOAD exit-time heap monitor over 8 CLI wirings; a labelled two-thread sampling pass.");
     rep.assume("copies left on the stack by moves and non-container temporaries are out of scope (the property is about the containers); erasure is observed as far as this build profile (release) performs it");
     let max_len = rep.tier.pick(4, 5);
@@ -596,6 +685,7 @@ pub fn run(rep: &'static Report) {
     }
     operations_leave_nothing(rep);
     cli_exit_scan(rep);
+    under_failing_mlock(rep);
     // Supplementary, NOT exhaustive (sampling, labelled as such): the containers contain no synchronisation operation, so there
     // is no interleaving space for a controlled scheduler; this free-running pass drops an original and its clone at the same
     // moment on two threads and inspects the released memory (a shared/ref-counted representation would race here).
@@ -665,6 +755,10 @@ pub fn run(rep: &'static Report) {
 }
 
 pub fn replay(rep: &'static Report, case: &Value) {
+    if case["kind"] == "mlock" {
+        under_failing_mlock(rep);
+        return;
+    }
     if case["kind"] == "cli-exit" {
         cli_exit_scan(rep);
         return;
